@@ -436,7 +436,8 @@ def argreduce_preprocess(array, axis):
         idx,
         dtype=array.dtype,
         meta=array._meta,
-        name="groupby-argreduce-preprocess",
+        # the name must identify the array: a fixed name makes two graphs share keys
+        name="groupby-argreduce-preprocess-" + dask.base.tokenize(array, axis),
     )
 
 
